@@ -1011,6 +1011,13 @@ class Parsent(object):
             if self.msg:
                 self.started = True
                 break
+            if self.closed:  # closed before any of the message arrived
+                self.errored = True
+                self.error = str(PrematureClosure("Connection closed "
+                                "unexpectedly before start of message"))
+                self.ended = True
+                (yield True)
+                return
             (yield None)
 
         try:
